@@ -44,13 +44,13 @@ static void slot_of(size_t idx, size_t capacity, size_t* b, size_t* o);
 void xv_env(void);
 #endif
 
-#define XV_INV_GROW (start <= i && i <= bottom && gA_v == in_gjv \
+#define XV_INV_GROW (start <= i && i <= bottom && gA_v == in_gjv && !mon_cap_stored && !mon_cell_store_after_cap \
    && (i > start ? ((i - 1) & capacity) != 0 : 1) \
    && (((in_gj & capacity) != 0 && in_gj >= start && in_gj < i) ? gB_v == in_gjv : 1))
-#define XV_HAVOC_GROW i = nondet_size(); gA_v = nondet_uptr(); gB_v = nondet_uptr(); xv_scratch = nondet_uptr() /* XV_CELL */
+#define XV_HAVOC_GROW i = nondet_size(); gA_v = nondet_uptr(); gB_v = nondet_uptr(); xv_scratch = nondet_uptr(); mon_cell_store_after_cap = nondet_bool(); mon_cap_load_order = nondet_int() /* XV_CELL, monitors */
 
 /* the same invariant as cbmc loop-contract clauses for the Route D cross-check (goto-instrument --dfcc) */
-#define XV_LOOP_CONTRACT_GROW __CPROVER_assigns(i, gA_v, gB_v, xv_scratch, xv_clock) __CPROVER_loop_invariant(XV_INV_GROW) __CPROVER_decreases(bottom - i)
+#define XV_LOOP_CONTRACT_GROW __CPROVER_assigns(i, gA_v, gB_v, xv_scratch, xv_clock, mon_cell_store_after_cap, mon_cap_load_order) __CPROVER_loop_invariant(XV_INV_GROW) __CPROVER_decreases(bottom - i)
 size_t in_gj; entry in_gjv; size_t in_top, in_bottom; unsigned in_c;
 static size_t gca_capacity(struct gca* self);
 #include "lowered.h"
